@@ -14,6 +14,7 @@ import (
 	"slices"
 	"strings"
 	"sync"
+	"sync/atomic"
 	"time"
 
 	"github.com/sourcegraph/jsonrpc2"
@@ -161,6 +162,10 @@ type LanguageServer struct {
 
 	workspaceRootURI string
 	clientIdentifier clients.Identifier
+
+	// set when handleInitialize is done with the fields above (and bundleCache): the workspace state
+	// worker polls from the start and must not read them while they are being written
+	initialized atomic.Bool
 
 	workspaceDiagnosticsPoll time.Duration
 }
@@ -961,6 +966,10 @@ func (l *LanguageServer) StartWorkspaceStateWorker(ctx context.Context) {
 		case <-ctx.Done():
 			return
 		case <-timer.C:
+			if !l.initialized.Load() {
+				continue
+			}
+
 			// first clear files that are missing from the workspaceDir
 			for fileURI := range l.cache.GetAllFiles() {
 				filePath := uri.ToPath(l.clientIdentifier, fileURI)
@@ -2448,6 +2457,8 @@ func (l *LanguageServer) handleInitialize(ctx context.Context, params types.Init
 			OverwriteAggregates: true,
 		}
 	}
+
+	l.initialized.Store(true)
 
 	return initializeResult, nil
 }
